@@ -43,6 +43,8 @@ def run(res, replay=None):
     import translate_step; (res.proof is not None) and translate_step.run(res.proof, pid=res.pid, tie='configs')
     # structural tie of the class Transition of phasegen/state_space.py: translate the CURRENT source and re-check proofs/GenTransitionEquiv.v
     import translate_step; (res.proof is not None) and translate_step.run(res.proof, pid=res.pid, tie='transition')
+    # pinned reading of the enumeration of the state space and the assembly of the rate matrix (get_transitions, _graph_to_matrix, e, _get_initial, State): re-check the CURRENT source against it and proofs/GenStateSpaceEquiv.v
+    import translate_step; (res.proof is not None) and translate_step.run(res.proof, pid=res.pid, tie='statespace')
     rng = random.Random(res.seed)
     res.rule = ('statespace stream: every sample split with n<=4 (thorough: 5) over <=3 demes, random model among '
                 'Kingman/Beta/Dirac, power-of-two sizes and dyadic migration rates in 1-2 epochs, both state spaces; two '
